@@ -300,6 +300,7 @@ class AccessoryConn(asyncio.Protocol):
         self.is_open = False
         self.opened_at = None
         self.closed_at = None
+        self.closed_by_accessory = False  # ground truth: who ended this connection (False at closed_at = the controller did)
         self.eof = False
         self.secure = False
         self.parser = refhttp.RequestParser()
@@ -320,6 +321,11 @@ class AccessoryConn(asyncio.Protocol):
         self.transport = transport
         self.is_open = True
         self.opened_at = asyncio.get_running_loop().time()
+        if self.script.verify == "reset_m1":
+            # the accessory never reads and resets the connection while the controller's M1 is unread: the controller sees
+            # ECONNRESET (connection_lost with an exception, no EOF first) in the middle of pair-verify
+            transport.pause_reading()
+            asyncio.get_running_loop().call_later(0.05, self.abort)
 
     def eof_received(self):
         self.eof = True
@@ -395,10 +401,14 @@ class AccessoryConn(asyncio.Protocol):
                 await asyncio.sleep(0)
 
     def close(self):
+        if self.is_open:
+            self.closed_by_accessory = True
         if self.transport is not None:
             self.transport.close()
 
     def abort(self):
+        if self.is_open:
+            self.closed_by_accessory = True
         if self.transport is not None:
             self.transport.abort()
 
@@ -458,8 +468,15 @@ class AccessoryConn(asyncio.Protocol):
 
     def _put_chars(self, req):
         doc = json.loads(req["body"].decode())
+        statuses = []
         for item in doc.get("characteristics", []):
             key = (item["aid"], item["iid"])
+            known = self.accessory.find_char(*key) is not None
+            statuses.append({"aid": key[0], "iid": key[1], "status": 0 if known else -70409})
+            if "ev" in item and not known:
+                # asked for, but the accessory has no such characteristic: answered per item in a 207 multi-status reply
+                self.subscribe_log.append((asyncio.get_running_loop().time(), key, item["ev"], req["n"]))
+                continue
             if "ev" in item:
                 self.subscribe_log.append((asyncio.get_running_loop().time(), key, item["ev"], req["n"]))
                 if item["ev"]:
@@ -470,6 +487,9 @@ class AccessoryConn(asyncio.Protocol):
                 ch = self.accessory.find_char(*key)
                 if ch is not None:
                     ch["value"] = item["value"]
+        if any(st["status"] for st in statuses) and any("ev" in it for it in doc.get("characteristics", [])):
+            body = json.dumps({"characteristics": statuses}, separators=(",", ":")).encode()
+            return self.send(self.http(207, body, "application/hap+json"))
         self.send(self.http(204))
 
     # -- pair verify --------------------------------------------------------------------------------
@@ -541,7 +561,7 @@ class AccessoryConn(asyncio.Protocol):
                 # controller's first request of the session is unread (abortive close: ECONNRESET, no EOF first)
                 self.secure = True
                 self.transport.pause_reading()
-                asyncio.get_running_loop().call_later(0.05, self.transport.abort)
+                asyncio.get_running_loop().call_later(0.05, self.abort)
                 return None
             if mode == "ok_close_after_m4" and self.exchange.verified:
                 # the session is established (M4 sent) and the accessory hangs up at once
